@@ -206,6 +206,12 @@ pub struct GenCfg {
     /// eight guards) from a thread-local destructor after the crate's thread-local is gone, the
     /// others keep storing
     pub late: bool,
+    /// directed node reuse: short-lived readers doing exactly one load each (so that their
+    /// transaction counters agree), alternating between two containers, against writers
+    pub reuse: bool,
+    /// directed inheritance: thread 0 takes eight guards and exits; the others start with a write
+    /// (which takes a node but no fast slot) and then load
+    pub inherit: bool,
 }
 
 /// Type-directed generation: registers are tracked abstractly per thread so that most operations
@@ -236,6 +242,43 @@ pub fn generate(rng: &mut Rng, cfg: &GenCfg) -> Program {
         let mut ops = vec![];
         let hbase = 1 + t * HPT;
         let gbase = t * GPT;
+        if cfg.reuse {
+            if t < 2 {
+                // writers: one per container, a few stores each
+                for _ in 0..rng.range(2, 4) {
+                    ops.push(Op::New { h: hbase + 1, val: next_val * 100 });
+                    next_val += 1;
+                    ops.push(Op::Store { c: t % 2, h: hbase + 1 });
+                }
+            } else {
+                let c = rng.range(0, 2);
+                if rng.chance(1, 2) {
+                    ops.push(Op::Load { c, g: gbase });
+                    ops.push(Op::DropG { g: gbase });
+                } else {
+                    ops.push(Op::LoadFull { c, h: hbase });
+                    ops.push(Op::DropH { h: hbase });
+                }
+            }
+            threads.push(ops);
+            continue;
+        }
+        if cfg.inherit {
+            if t == 0 {
+                for k in 0..8 {
+                    ops.push(Op::Load { c: 0, g: gbase + k });
+                }
+            } else {
+                ops.push(Op::New { h: hbase + 1, val: next_val * 100 });
+                next_val += 1;
+                ops.push(Op::Store { c: 1, h: hbase + 1 });
+                ops.push(Op::Load { c: 0, g: gbase });
+                ops.push(Op::LoadFull { c: 0, h: hbase });
+                ops.push(Op::DropG { g: gbase });
+            }
+            threads.push(ops);
+            continue;
+        }
         if cfg.late {
             if t == 0 {
                 ops.push(Op::LoadFull { c: 0, h: hbase });
